@@ -4,11 +4,13 @@
 package c02
 
 import (
+	"bytes"
 	"context"
 	"encoding/json"
 	"errors"
 	"fmt"
 	"io"
+	"reflect"
 	"strconv"
 	"testing"
 	"time"
@@ -590,3 +592,141 @@ func propPipelines(t *rapid.T) {
 }
 
 func FuzzPipelines(f *testing.F) { f.Fuzz(rapid.MakeFuzz(propPipelines)) }
+
+// ---------------------------------------------------------------------
+// JSON legs over element types that encoding/json *merges into* (structs
+// with omitted fields, maps, slices, pointers): the iterator's JSON form is
+// the JSON form of the slice of its elements, both ways, element by
+// element - a decoded element owes nothing to its predecessor.
+
+const tJSON = "TestJSONElements"
+
+type rec struct {
+	A *int           `json:"a,omitempty"`
+	B []int          `json:"b,omitempty"`
+	M map[string]int `json:"m,omitempty"`
+	S string         `json:"s,omitempty"`
+}
+
+// Rec is the generated description of one element (which fields are present).
+type Rec struct {
+	A *int           `json:"a,omitempty"`
+	B []int          `json:"b,omitempty"`
+	M map[string]int `json:"m,omitempty"`
+	S string         `json:"s,omitempty"`
+}
+
+type jsonCase struct {
+	Kind   string `json:"kind"`   // struct | map | slice
+	Prefix int    `json:"prefix"` // elements already in the iterator UnmarshalJSON is applied to
+	Recs   []Rec  `json:"recs"`
+}
+
+func jsonRoundTrip[T any](t vkit.TB, c jsonCase, prefix, elems []T) {
+	fail := func(key, f string, a ...any) { vkit.Fail(t, tJSON, "C02:json/"+key, c, f, a...) }
+	want, err := json.Marshal(elems)
+	if err != nil {
+		t.Fatalf("encoding/json: %v", err)
+	}
+	if len(elems) == 0 {
+		want = []byte("[]")
+	}
+	got, err := fun.SliceIterator(elems).MarshalJSON()
+	if err != nil {
+		fail("marshal", "MarshalJSON: %v", err)
+	}
+	if !bytes.Equal(got, want) {
+		fail("marshal", "MarshalJSON = %s, encoding/json of the elements = %s", got, want)
+	}
+	it := fun.SliceIterator(append([]T{}, prefix...))
+	if err := it.UnmarshalJSON(want); err != nil {
+		fail("unmarshal", "UnmarshalJSON(%s): %v", want, err)
+	}
+	out, err := it.Slice(context.Background())
+	if err != nil {
+		fail("unmarshal", "reading the iterator after UnmarshalJSON(%s): %v", want, err)
+	}
+	var dec []T
+	if err := json.Unmarshal(want, &dec); err != nil {
+		t.Fatalf("encoding/json: %v", err)
+	}
+	spec := append(append([]T{}, prefix...), dec...)
+	if len(out) != len(spec) {
+		fail("unmarshal", "UnmarshalJSON(%s) onto %d elements yields %d elements, want %d", want, len(prefix), len(out), len(spec))
+	}
+	for i := range spec {
+		if !reflect.DeepEqual(out[i], spec[i]) {
+			a, _ := json.Marshal(out[i])
+			b, _ := json.Marshal(spec[i])
+			fail("unmarshal", "element %d after UnmarshalJSON(%s) is %s, encoding/json decodes it as %s", i, want, a, b)
+		}
+	}
+}
+
+func runJSON(t vkit.TB, c jsonCase) {
+	switch c.Kind {
+	case "struct":
+		var els []rec
+		for _, r := range c.Recs {
+			els = append(els, rec(r))
+		}
+		jsonRoundTrip(t, c, els[:min(c.Prefix, len(els))], els)
+	case "map":
+		var els []map[string]int
+		for _, r := range c.Recs {
+			m := map[string]int{}
+			for k, v := range r.M {
+				m[k] = v
+			}
+			els = append(els, m)
+		}
+		jsonRoundTrip(t, c, els[:min(c.Prefix, len(els))], els)
+	default:
+		var els [][]int
+		for _, r := range c.Recs {
+			els = append(els, append([]int{}, r.B...))
+		}
+		jsonRoundTrip(t, c, els[:min(c.Prefix, len(els))], els)
+	}
+}
+
+func TestJSONElements(t *testing.T) {
+	var rc jsonCase
+	if ok, err := vkit.ReplayCase(tJSON, &rc); err != nil {
+		t.Fatal(err)
+	} else if ok {
+		runJSON(t, rc)
+		return
+	}
+	rapid.Check(t, func(t *rapid.T) {
+		c := jsonCase{Kind: rapid.SampledFrom([]string{"struct", "struct", "map", "slice"}).Draw(t, "kind"), Prefix: rapid.IntRange(0, 2).Draw(t, "prefix")}
+		n := rapid.IntRange(0, 6).Draw(t, "n")
+		differ := false
+		for i := 0; i < n; i++ {
+			var r Rec
+			if rapid.Bool().Draw(t, "hasA") {
+				v := rapid.IntRange(-3, 3).Draw(t, "a")
+				r.A = &v
+			}
+			r.B = rapid.SliceOfN(rapid.IntRange(0, 9), 0, 4).Draw(t, "b")
+			if len(r.B) == 0 {
+				r.B = nil
+			}
+			if rapid.Bool().Draw(t, "hasM") {
+				r.M = rapid.MapOfN(rapid.SampledFrom([]string{"x", "y", "z"}), rapid.IntRange(0, 9), 0, 3).Draw(t, "m")
+				if len(r.M) == 0 {
+					r.M = nil
+				}
+			}
+			if rapid.Bool().Draw(t, "hasS") {
+				r.S = rapid.SampledFrom([]string{"p", "q"}).Draw(t, "s")
+			}
+			if i > 0 && !reflect.DeepEqual(r, c.Recs[i-1]) {
+				differ = true
+			}
+			c.Recs = append(c.Recs, r)
+		}
+		runJSON(t, c)
+		vkit.Case(tJSON, vkit.Hash(c), n >= 2 && differ, []string{"kind:" + c.Kind}, func() any { return c })
+	})
+}
